@@ -628,6 +628,7 @@ class C03Check(StreamCheckBase):
         "nan_utility_seen",
         "spurious_before_first_update",
         "spurious_other_width",
+        "global_generator_is_state",
     ]
     assumptions = [
         "the caller reports to update exactly what query returned (honest caller)",
@@ -755,6 +756,22 @@ class C03Check(StreamCheckBase):
                     e["rows"] = rows
                 inj.append(e)
         sc["injections"] = sorted(inj, key=lambda e: (e["at"], e["slot"] != "pre"))
+        if f.chance(0.08):
+            # random_state=None: the subject draws from numpy's process-global generator, which is then part of
+            # the state that only update may advance; another user of that generator draws once per chunk
+            def unseed(spec):
+                if "random_state" in spec["params"]:
+                    spec["params"]["random_state"] = None
+                bm_ = spec["params"].get("budget_manager")
+                if isinstance(bm_, dict):
+                    unseed(bm_)
+
+            unseed(subject)
+            sc["unseeded"] = True
+            # (the lazily created parts draw their own seeds from that generator once, at creation: which call creates
+            # them is then visible by design, so spurious queries only start after the first genuine query)
+            sc.pop("update_first", None)
+            sc["injections"] = [e for e in sc["injections"] if not (e["at"] < 0 or (e["at"] == 0 and e["slot"] == "pre"))]
         return sc
 
     # ---- executor
@@ -766,6 +783,7 @@ class C03Check(StreamCheckBase):
             if fresh:
                 ctx.probe("lazy_init_by_query")
             before = snapshot(drv.obj)
+            g_before = np.random.get_state() if sc.get("unseeded") else None
             kind = e["kind"]
             r2 = rows if kind in ("dup", "noutil") else np.array(e["rows"], dtype=float)
             if drv.is_manager and kind not in ("dup", "noutil"):
@@ -786,6 +804,11 @@ class C03Check(StreamCheckBase):
             changed = diff_keys({k_: v for k_, v in before.items()}, {k_: v for k_, v in after.items() if k_ in before})
             # attributes of a lazily created budget manager have no 'before'
             changed = [x for x in changed if not x.endswith("(presence)")]
+            if g_before is not None:
+                ctx.probe("global_generator_is_state")
+                g_after = np.random.get_state()
+                if not (np.array_equal(g_before[1], g_after[1]) and g_before[2:] == g_after[2:]):
+                    changed.append("numpy.random (global generator used with random_state=None)")
             if changed:
                 # judged at the end of the world: only attributes that update() itself advances (or a
                 # generator) are 'state' in the sense of the property, not e.g. a diagnostic cache
@@ -805,6 +828,7 @@ class C03Check(StreamCheckBase):
                 inj_by.setdefault((e["at"], e["slot"]), []).append(e)
         pos = 0
         last_inj_pos = -1
+        np.random.seed(20240229)  # every world starts from the same process-global generator
         drop = set(sc.get("drop_updates", []))
         uf = sc.get("update_first")
         if uf:
@@ -830,6 +854,8 @@ class C03Check(StreamCheckBase):
             rows = drv.rows(pos, pos + c)
             for slot in ("pre", "mid"):
                 if slot == "mid":
+                    if sc.get("unseeded"):
+                        np.random.random_sample()  # the other user of the global generator
                     # the genuine query of this chunk
                     try:
                         q, u = drv.query_rows(rows, True)
@@ -903,7 +929,7 @@ class C03Check(StreamCheckBase):
         self._pending, self._upd_written = [], set()
         _, err_s = self._run_world(sc, ctx, True, rec_s)
         for changed, kind, k, slot in self._pending:
-            state = [x for x in changed if x in self._upd_written or "random_state" in x]
+            state = [x for x in changed if x in self._upd_written or "random_state" in x or x.startswith("numpy.random")]
             if state:
                 ctx.violate(
                     "state-changed-by-query",
